@@ -299,7 +299,7 @@ func C06(r *Run) {
 // C07
 
 func C07(r *Run) {
-	st := modelEval(r, "C07", 1)
+	st := modelEval(r, "C07", r.Pick(1, 2))
 	g := gen.New(r.Seed*86028121 + 7)
 	g.ReqP = 0.15
 	g.Strs = append(g.Strs, "$required", "$delete", "$bogus", "$match", "$replace", "$output", "$Upper", "$1", "$merge:nope", "$value")
@@ -362,7 +362,7 @@ func C07(r *Run) {
 // C10
 
 func C10(r *Run) {
-	st := modelEval(r, "C10", 1)
+	st := modelEval(r, "C10", r.Pick(1, 2))
 	g := gen.New(r.Seed*32452843 + 10)
 	n := r.Pick(2500, 50000)
 	var sessions []Sess
@@ -540,7 +540,7 @@ func overlayMerge(local, ref any) any { return overlay(local, ref) }
 // C11
 
 func C11(r *Run) {
-	st := modelEval(r, "C11", 1)
+	st := modelEval(r, "C11", r.Pick(1, 2))
 	g := gen.New(r.Seed*49979687 + 11)
 	n := r.Pick(3000, 60000)
 	var sessions []Sess
@@ -819,7 +819,7 @@ func chainEvalSession(layers []any, expect any, note string) Sess {
 // C13
 
 func C13(r *Run) {
-	st := modelEval(r, "C13", 1)
+	st := modelEval(r, "C13", r.Pick(1, 2))
 	g := gen.New(r.Seed*141650939 + 13)
 	n := r.Pick(2500, 50000)
 	var sessions []Sess
